@@ -69,6 +69,18 @@ pub fn configs_c08(tier: Tier) -> Vec<Box<dyn Config>> {
     let q = tier == Tier::Quick;
     let p = vec![Probe::Capacity];
     let mut v: Vec<Box<dyn Config>> = vec![Box::new(Constructors)];
+    // element sizes whose bucket array needs padding: allocation_size() must equal the ledger in every state
+    {
+        use crate::laysut::*;
+        for coll in [Coll::Set, Coll::Map, Coll::Table] {
+            let h = LayHarness::<S3>::new(coll, Plan::Seq, if q { 5 } else { 8 }, false);
+            let l = format!("{}-allocation-size", h.label());
+            v.push(Box::new(BfsConfig::new(l, h, lim(tier))));
+        }
+        let h = LayHarness::<S6>::new(Coll::Set, Plan::Zero, if q { 5 } else { 8 }, false);
+        let l = format!("{}-allocation-size", h.label());
+        v.push(Box::new(BfsConfig::new(l, h, lim(tier))));
+    }
     if sse2 {
         v.push(probe_cfg::<TKey, TVal>(Plan::Zero, if q { 13 } else { 16 }, p.clone(), tier, "capacity"));
         v.push(probe_cfg::<PKey, PVal>(Plan::Seq, if q { 5 } else { 7 }, p.clone(), tier, "capacity"));
